@@ -75,9 +75,9 @@ Print Assumptions C06_tables_revpair.
    cotangent (lowpass gll and the 12 planes); read right to left it says INV_J2PLUS.backward = fwd_j2plus with the filters exchanged
    is the adjoint of inv_j2plus (all inputs present) *)
 Theorem C06_qshift_level_adjoint :
-  forall (R:Type) (Op:Ops R) (Rth:RingOk Op),
+  forall (R:Type) (Op:Ops R) (Rth:RingOk Op) (s:R),
   (forall a b:R, rmul Op (radd Op (r1 Op) (r1 Op)) a = rmul Op (radd Op (r1 Op) (r1 Op)) b -> a = b) ->
-  forall (s:R) L (H0A H0B H1A H1B:Z->R), 2 <= L /\ L mod 2 = 0 ->
+  forall L (H0A H0B H1A H1B:Z->R), 2 <= L /\ L mod 2 = 0 ->
   (forall j, 0 <= j < L -> H0B j = H0A (L-1-j)) -> (forall j, 0 <= j < L -> H1B j = H1A (L-1-j)) ->
   forall (x gll g15r g15i g45r g45i g75r g75i g105r g105i g135r g135i g165r g165i:@ten R),
   4 <= tH x -> tH x mod 4 = 0 -> 4 <= tW x -> tW x mod 4 = 0 -> 0 < tC x ->
